@@ -39,11 +39,11 @@ SeqsUpTo(S, n) == IF n = 0 THEN {<<>>} ELSE LET P == SeqsUpTo(S, n - 1) IN P \cu
 
 \* all streams of 1..maxn frames whose sizes are in `sizes'; a frame above `max' is present in full or cut short
 AbstractStreams(sizes, maxn, max) ==
-  {[frames |-> [j \in 1..Len(q) |-> [id |-> j, kind |-> "F", size |-> q[j], len |-> q[j]]], max |-> max]
+  {[frames |-> [j \in 1..Len(q) |-> [id |-> j, kind |-> "F", size |-> q[j], len |-> q[j]]], max |-> max, cuts |-> "all", run |-> 1]
      : q \in SeqsUpTo(sizes, maxn) \ {<<>>}}
   \cup
   {[frames |-> [j \in 1..Len(q) |-> [id |-> j, kind |-> "F", size |-> q[j],
-                                     len |-> IF j = Len(q) THEN HdrLen + 2 ELSE q[j]]], max |-> max]
+                                     len |-> IF j = Len(q) THEN HdrLen + 2 ELSE q[j]]], max |-> max, cuts |-> "all", run |-> 1]
      : q \in {x \in SeqsUpTo(sizes, maxn) \ {<<>>} : max > 0 /\ x[Len(x)] > max /\ x[Len(x)] > HdrLen + 2}}
 
 RECURSIVE SumS(_)
@@ -54,5 +54,6 @@ RECURSIVE ScriptsRec(_, _, _, _)
 ScriptsRec(sizes, maxc, n, t) ==
   IF n = 0 THEN {<<>>}
   ELSE {<<>>} \cup UNION {{<<m>> \o r : r \in ScriptsRec(sizes, maxc, n - 1, t - SumS(m))} : m \in MsgsUpTo(sizes, maxc, t)}
-AbstractScripts(sizes, maxc, maxm, tot) == ScriptsRec(sizes, maxc, maxm, tot) \ {<<>>}
+AbstractScripts(sizes, maxc, maxm, tot, idles) ==
+  {[msgs |-> m, cuts |-> "all", run |-> 1, idle |-> idles] : m \in ScriptsRec(sizes, maxc, maxm, tot) \ {<<>>}}
 =============================================================================
